@@ -129,6 +129,65 @@ def do_schema(task):
     return {"ok": out}
 
 
+def do_fixture(task):
+    """A nested file written by someone else (repository test data): for every LIST/MAP leaf chunk made of v1 pages
+    return the decoded page streams (levels and dereferenced values, decoded by fastparquet's own page reader) and
+    what to_pandas() gives for the column."""
+    import numpy as np
+    from fastparquet import ParquetFile, core, encoding, parquet_thrift
+    from fastparquet.cencoding import ThriftObject
+    from fastparquet.converted_types import convert
+    from fastparquet.schema import _is_list_like, _is_map_like
+    pf = ParquetFile(task["path"])
+    h = pf.schema
+    out = []
+    with open(task["path"], "rb") as f:
+        for gi, rg in enumerate(pf.row_groups):
+            for col in rg.columns:
+                cmd = col.meta_data
+                path = list(cmd.path_in_schema)
+                islist, ismap = bool(_is_list_like(h, col)), bool(_is_map_like(h, col))
+                if not (islist or ismap):
+                    continue
+                name = ".".join(path[:-2])
+                se = h.schema_element(path)
+                rec = {"rg": gi, "name": name, "path": path, "kind": "list" if islist else "map", "leaf": path[-1],
+                       "max_rep": h.max_repetition_level(path), "max_def": h.max_definition_level(path),
+                       "row_opt": bool(not h.is_required(path[0])),
+                       "path_types": [h.schema_element(path[:k + 1]).repetition_type for k in range(len(path))],
+                       "num_rows": rg.num_rows, "pages": [], "skipped": None}
+                off = min(cmd.dictionary_page_offset or cmd.data_page_offset, cmd.data_page_offset)
+                f.seek(off)
+                buf = encoding.NumpyIO(f.read(cmd.total_compressed_size))
+                dic = None
+                num = 0
+                while num < cmd.num_values:
+                    ph = ThriftObject.from_buffer(buf, "PageHeader")
+                    if ph.type == parquet_thrift.PageType.DICTIONARY_PAGE:
+                        dic = convert(core.read_dictionary_page(buf, h, ph, cmd, utf=se.converted_type == 0), se)
+                        continue
+                    if ph.type != parquet_thrift.PageType.DATA_PAGE:
+                        rec["skipped"] = "page type %r" % ph.type
+                        break
+                    defi, rep, val = core.read_data_page(buf, h, ph, cmd, False, selfmade=False)
+                    d = ph.data_page_header.encoding in [parquet_thrift.Encoding.PLAIN_DICTIONARY,
+                                                         parquet_thrift.Encoding.RLE_DICTIONARY]
+                    if d:
+                        val = dic[val]
+                    n = len(rep) if rep is not None else (len(defi) if defi is not None else len(val))
+                    rec["pages"].append({"rep": None if rep is None else [int(x) for x in rep],
+                                         "def": None if defi is None else [int(x) for x in defi],
+                                         "vals": [canon_scalar(x) for x in list(val)]})
+                    num += n
+                out.append(rec)
+    df = pf.to_pandas()
+    cells = {}
+    for rec in out:
+        if rec["name"] not in cells:
+            cells[rec["name"]] = [canon_cell(x) for x in df[rec["name"]].tolist()] if rec["name"] in df.columns else "missing column"
+    return {"ok": out, "cells": cells, "row_groups": [rg.num_rows for rg in pf.row_groups]}
+
+
 def main():
     from harness import common as C
     C.use_shadow()
@@ -147,6 +206,8 @@ def main():
                 res = do_seq(task)
             elif task["op"] == "schema":
                 res = do_schema(task)
+            elif task["op"] == "fixture":
+                res = do_fixture(task)
             else:
                 res = {"exc": "unknown op"}
         except BaseException as e:      # noqa
